@@ -8,6 +8,12 @@ The frame is profiled through `DataFrame.profile`; every column's profile is
   (c) and the oracle is also run on the model's own output (a rejection there is a harness bug).
 For every cut the two batch profiles are added with `TableProfile.__add__` and compared with the
 profile of the whole frame (count, missing, minimum, maximum).
+
+A *sequence* case (`appends`, optional `other`) uses ONE DataFrame object several times: profile, append
+rows, profile again (and, with `other`, the profile of a second frame taken in between); every profile is
+judged against the rows the frame holds at that moment.  Columns holding values whose sketch hashes collide
+come from corpus/C15/collisions.json (found once by tools/c15_find_collisions.py, re-verified against the
+implementation's own hash on every run).
 """
 import datetime
 import decimal
@@ -153,7 +159,10 @@ def expand(case):
     if "gen" in case:
         g = case["gen"]
         pat = g["pattern"]
-        return [list(pat[i % len(pat)]) for i in range(g["n"])]
+        m = min(g.get("nulls_first", 0), g["n"])  # the first m rows are all null
+        return [[None] * len(pat[0]) for _ in range(m)] + [list(pat[i % len(pat)]) for i in range(g["n"] - m)]
+    if "appends" in case:  # a sequence case: everything the frame ever holds
+        return list(case["rows"]) + [r for chunk in case["appends"] for r in chunk]
     return case["rows"]
 
 
@@ -203,6 +212,8 @@ def valid_case(c):
             g = c["gen"]
             if not isinstance(g.get("n"), int) or g["n"] < 1 or g["n"] > 200000 or not g.get("pattern"):
                 return False
+            if "nulls_first" in g and (not isinstance(g["nulls_first"], int) or isinstance(g["nulls_first"], bool) or g["nulls_first"] < 0):
+                return False
             rows = g["pattern"]
         else:
             rows = c["rows"]
@@ -227,6 +238,24 @@ def valid_case(c):
                         return False
         if "lazy" in c and not isinstance(c["lazy"], bool):
             return False
+        if "appends" in c or "other" in c:
+            # one frame object used several times: plain cell forms only, no cuts, no generated frame
+            if "appends" not in c or "gen" in c or "cells" in c or c.get("cuts"):
+                return False
+            if not isinstance(c["appends"], list) or not c["appends"]:
+                return False
+            extra = [r for chunk in c["appends"] if isinstance(chunk, list) for r in chunk]
+            if any(not isinstance(chunk, list) for chunk in c["appends"]):
+                return False
+            if "other" in c:
+                if not isinstance(c["other"], list) or not c["other"]:
+                    return False
+                extra = extra + c["other"]
+            for r in extra:
+                if not isinstance(r, list) or len(r) != len(kinds):
+                    return False
+                if not all(valid_cell(k, v) for k, v in zip(kinds, r)):
+                    return False
         n = c["gen"]["n"] if "gen" in c else len(rows)
         for k in c.get("cuts", []):
             if not isinstance(k, int) or isinstance(k, bool) or not (1 <= k <= n - 1):
@@ -324,6 +353,54 @@ def core_of(d):
     return [d["count"], d["missing"], d["min"], d["max"]]
 
 
+# --------------------------------------------------------------------------- hash-colliding values
+
+_COLLISIONS = None
+_LIVE = {}
+
+
+def load_collisions():
+    """corpus/C15/collisions.json: per kind, groups of cells whose sketch hashes were equal when
+    tools/c15_find_collisions.py ran.  Nothing here is trusted: see live_groups."""
+    global _COLLISIONS
+    if _COLLISIONS is None:
+        path = os.path.join(hcore.VERIF, "corpus", "C15", "collisions.json")
+        out = {}
+        try:
+            fam = json.load(open(path))["families"]
+            for k, f in fam.items():
+                if k in KINDS:
+                    out[k] = [g["cells"] for g in f["groups"] if all(valid_cell(k, v) for v in g["cells"])]
+        except (OSError, ValueError, KeyError):
+            out = {}
+        _COLLISIONS = out
+    return _COLLISIONS
+
+
+def live_groups(kind):
+    """The stored groups whose members still share one hash, as observed from the implementation now."""
+    if kind not in _LIVE:
+        live = []
+        for cells in load_collisions().get(kind, []):
+            hs = [impl_hash(kind, v) for v in cells]
+            if hs[0] is not None and all(h == hs[0] for h in hs):
+                live.append(cells)
+        _LIVE[kind] = live
+    return _LIVE[kind]
+
+
+def colliding_in(kind, nn):
+    """True when two different values of the column have the same sketch hash (observed)."""
+    seen = {}
+    for v in nn:
+        key = str(exact(kind, v)) if kind in NUMERIC + TEMPORAL else v
+        if key in seen:
+            continue
+        seen[key] = impl_hash(kind, v)
+    hs = [h for h in seen.values() if h is not None]
+    return len(hs) != len(set(hs))
+
+
 # --------------------------------------------------------------------------- oracle
 
 
@@ -361,8 +438,9 @@ def expected_order(vals):
     return order, transitions
 
 
-def oracle_column(kind, vals, d, model_side=False):
-    """The property's per-column clauses on one profile dict. Returns (what, text) or None."""
+def oracle_column(kind, vals, d, model_side=False, skip=()):
+    """The property's per-column clauses on one profile dict. Returns (what, text) or None (the first clause
+    that fails; `skip` names clauses not to judge: mfv / cardinality / order / transitions)."""
     if "raised" in d:
         return ("raised", "profiling raised " + d["raised"])
     if d.get("absent"):
@@ -392,37 +470,45 @@ def oracle_column(kind, vals, d, model_side=False):
     counts = {}
     for e in ex:
         counts[e] = counts.get(e, 0) + 1
-    if not model_side and d["mfv_lens"][0] != d["mfv_lens"][1]:
-        return ("mfv", "%d listed values but %d listed counts" % tuple(d["mfv_lens"]))
-    listed = {}
-    for label, c in d["mfv"]:
-        try:
-            v = parse_label(kind, label)
-        except (ValueError, ArithmeticError):
-            return ("mfv", "listed value %r is not a value of the column" % (label,))
-        if v in listed:
-            return ("mfv", "value %r is listed twice" % (label,))
-        if v not in counts:
-            return ("mfv", "listed value %r does not occur in the column" % (label,))
-        if counts[v] != c or isinstance(c, bool):
-            return ("mfv", "value %r is listed with count %r, it occurs %d times" % (label, c, counts[v]))
-        listed[v] = c
-    if ex and not listed:
-        return ("mfv", "no most-frequent value is listed for %d non-null values" % len(ex))
-    if listed:
-        low = min(listed.values())
-        for v, c in counts.items():
-            if v not in listed and c > low:
-                return ("mfv", "unlisted value %r occurs %d times, more often than a listed one (%d)" % (_show(v), c, low))
+
+    def mfv_clause():
+        if not model_side and d["mfv_lens"][0] != d["mfv_lens"][1]:
+            return ("mfv", "%d listed values but %d listed counts" % tuple(d["mfv_lens"]))
+        listed = {}
+        for label, c in d["mfv"]:
+            try:
+                v = parse_label(kind, label)
+            except (ValueError, ArithmeticError):
+                return ("mfv", "listed value %r is not a value of the column" % (label,))
+            if v in listed:
+                return ("mfv", "value %r is listed twice" % (label,))
+            if v not in counts:
+                return ("mfv", "listed value %r does not occur in the column" % (label,))
+            if counts[v] != c or isinstance(c, bool):
+                return ("mfv", "value %r is listed with count %r, it occurs %d times" % (label, c, counts[v]))
+            listed[v] = c
+        if ex and not listed:
+            return ("mfv", "no most-frequent value is listed for %d non-null values" % len(ex))
+        if listed:
+            low = min(listed.values())
+            for v, c in counts.items():
+                if v not in listed and c > low:
+                    return ("mfv", "unlisted value %r occurs %d times, more often than a listed one (%d)" % (_show(v), c, low))
+        return None
+
+    if "mfv" not in skip:
+        f = mfv_clause()
+        if f is not None:
+            return f
     # distinct count (whole values for text: the sketch sees them unshortened)
     distinct = len(set(nn)) if kind == "VARCHAR" else len(counts)
-    if distinct < consts()["kvm"] and d["card"] != distinct:
+    if "cardinality" not in skip and distinct < consts()["kvm"] and d["card"] != distinct:
         return ("cardinality", "distinct-count estimate is %r for %d distinct values (below the sketch size)" % (d["card"], distinct))
     if kind in NUMERIC + ("VARCHAR",):
         o, t = expected_order(ex)
-        if d["order"] != o or isinstance(d["order"], bool):
+        if "order" not in skip and (d["order"] != o or isinstance(d["order"], bool)):
             return ("order", "order indicator is %r, the data says %r" % (d["order"], o))
-        if d["transitions"] != t:
+        if "transitions" not in skip and d["transitions"] != t:
             return ("transitions", "transitions is %r, the data has %d" % (d["transitions"], t))
     return None
 
@@ -515,6 +601,84 @@ def compare_column(kind, d, m, core_only=False):
     return None
 
 
+def _hash_table(kind, vals):
+    """[[model cell, observed hash], ...] for the distinct non-null values, or None when one is unobservable."""
+    table, seen = [], set()
+    for v in vals:
+        if v is None:
+            continue
+        c = model_cell(kind, v)
+        k = json.dumps(c)
+        if k in seen:
+            continue
+        seen.add(k)
+        h = impl_hash(kind, v)
+        if h is None:
+            return None
+        table.append([c, h])
+    return table
+
+
+def _both_zeros(kind, vals):
+    """0.0 and -0.0 in one DOUBLE column: one number with two texts, so the sketch hash and the label are not
+    functions of the value — outside the model's value space for sums (single profiles keep the first seen)."""
+    if kind != "DOUBLE":
+        return False
+    z = {str(v) for v in vals if isinstance(v, float) and v == 0}
+    return len(z) > 1
+
+
+def model_sum_line(kind, va, vb):
+    """The model's `addProf (profile a) (profile b)` for the two sides of a cut."""
+    mk = MKIND[kind]
+    if mk == "counts" or _both_zeros(kind, va + vb):
+        return None
+    table = _hash_table(kind, va + vb) if mk != "boolean" else []
+    if table is None:
+        return None
+    return "C15 sum " + wire.line(mk, [model_cell(kind, v) for v in va], [model_cell(kind, v) for v in vb], table)
+
+
+def model_batchedfull_line(kind, vals):
+    mk = MKIND[kind]
+    if mk in ("counts", "boolean") or _both_zeros(kind, vals):
+        return None
+    table = _hash_table(kind, vals[:2000] if len(set(map(json.dumps, vals[:2000]))) == len(set(map(json.dumps, vals))) else vals)
+    if table is None:
+        return None
+    return "C15 batchedfull " + wire.line(mk, None, [model_cell(kind, v) for v in vals], table)
+
+
+def compare_sum(kind, d, m, pieces):
+    """A sum of batch profiles (TableProfile.__add__ / from_dataframe above the batch size) against the model's
+    addProf on every field the model describes.  `pieces`: the columns of the batches (the most-frequent lists
+    are compared only when no batch had to cut its list: ties at a cut-off are unordered)."""
+    if d.get("absent") or "raised" in d:
+        return "the sum has no column profile"
+    if core_of(d) != core_of(m):
+        return "count/missing/min/max %r vs model %r" % (core_of(d), core_of(m))
+    if d["kmv"] != m["kmv"]:
+        return "sketch of the sum %r vs model %r" % (d["kmv"][:5], m["kmv"][:5])
+    if len(m["kmv"]) < consts()["kvm"] and d["card"] != m["card"]:
+        return "cardinality of the sum %r vs model %r" % (d["card"], m["card"])
+    if [d["order"], d["transitions"]] != [m["order"], m["transitions"]]:
+        return "order/transitions of the sum %r vs model %r" % ([d["order"], d["transitions"]], [m["order"], m["transitions"]])
+    cut_somewhere = any(len(set(json.dumps(model_cell(kind, v)) for v in p if v is not None)) > consts()["mfv"] for p in pieces)
+    if not cut_somewhere:
+        try:
+            if kind == "BOOLEAN":
+                dm = sorted((str(l), c) for l, c in d["mfv"])
+                mm = sorted((str(v), c) for v, c in m["mfv"])
+            else:
+                dm = sorted((repr(parse_label(kind, l)), c) for l, c in d["mfv"])
+                mm = sorted((repr(v), c) for v, c in m["mfv"])
+        except (ValueError, ArithmeticError):
+            return "unparsable most-frequent label in the sum"
+        if dm != mm:
+            return "most frequent values of the sum %r vs model %r" % (dm[:6], mm[:6])
+    return None
+
+
 # --------------------------------------------------------------------------- evaluation
 
 
@@ -523,19 +687,81 @@ def non_finite(kind, vals):
     return kind == "DOUBLE" and any(isinstance(v, float) and (v != v or v in (float("inf"), float("-inf"))) for v in vals)
 
 
+def _take(frame, kinds):
+    """The profile of a frame object as it is now -> list of column dicts."""
+    with warnings.catch_warnings():
+        warnings.simplefilter("ignore")
+        try:
+            tp = frame.profile
+        except Exception as e:
+            return [{"raised": "%s: %s" % (type(e).__name__, str(e)[:120])} for _ in kinds]
+        return [_column_dict(tp.column("c%d" % j)) for j in range(len(kinds))]
+
+
+def check_sequence(case):
+    """One DataFrame object used several times: profile, append, profile again (optionally the profile of a
+    second frame in between).  Every profile must describe the rows its frame holds at that moment."""
+    kinds = case["kinds"]
+    res = {"cols": None, "adds": [], "failure": None, "views": []}
+    lazy = bool(case.get("lazy"))
+    df = _frame(kinds, case["rows"], None, lazy)
+    other = _frame(kinds, case["other"], None, False) if case.get("other") else None
+    cur = [list(r) for r in case["rows"]]
+
+    def judge(frame, rows, label):
+        cols = _take(frame, kinds)
+        res["views"].append((label, [list(r) for r in rows], cols))
+        if res["cols"] is None:
+            res["cols"] = cols
+        for j, k in enumerate(kinds):
+            f = oracle_column(k, [r[j] for r in rows], cols[j])
+            if f is not None:
+                res["failure"] = (f[0], "%scolumn %d (%s): %s" % (label, j, k, f[1]), j)
+                return False
+        return True
+
+    if not judge(df, cur, ""):
+        return res
+    for i, chunk in enumerate(case["appends"]):
+        if other is not None and not judge(other, case["other"], "second frame, profiled between two uses of the first: "):
+            return res
+        try:
+            for r in chunk:
+                df.append({"c%d" % j: pyvalue(k, v) for j, (k, v) in enumerate(zip(kinds, r))})
+                cur.append(list(r))
+        except Exception as e:
+            res["failure"] = ("append-raised", "appending row %r to the profiled frame raised %s: %s" % (r, type(e).__name__, str(e)[:100]), None)
+            return res
+        label = "use %d of one frame object (profiled, then %d row(s) appended, now %d rows): " % (i + 2, len(chunk), len(cur))
+        if not judge(df, cur, label):
+            return res
+    return res
+
+
 def check_case(case):
-    """Run one case on the implementation. Returns dict(failure=(what, text, col)|None, cols=[...], adds=[...])."""
+    """Run one case on the implementation. Returns dict(failure=(what, text, col)|None, cols=[...], adds=[...],
+    views=[(label, rows, cols)] — every (frame state, profile) pair that was judged)."""
+    if "appends" in case:
+        return check_sequence(case)
     kinds = case["kinds"]
     rows = expand(case)
     cells = cell_forms(case)
     lazy = bool(case.get("lazy"))
     tp, cols = impl_profiles(kinds, rows, cells, lazy)
-    res = {"cols": cols, "adds": [], "failure": None}
+    res = {"cols": cols, "adds": [], "failure": None, "views": [("", rows, cols)]}
     for j, k in enumerate(kinds):
         vals = [r[j] for r in rows]
         f = oracle_column(k, vals, cols[j])
         if f is not None:
             res["failure"] = (f[0], "column %d (%s): %s" % (j, k, f[1]), j)
+            # above the batch size a failure of one frequency clause (open finding K06) must not hide the
+            # others: judge the remaining clauses of this column too
+            skip = []
+            while len(rows) > consts()["batch"] and f is not None and f[0] in ("mfv", "cardinality", "order", "transitions"):
+                skip.append(f[0])
+                f = oracle_column(k, vals, cols[j], skip=tuple(skip))
+                if f is not None:
+                    res.setdefault("more", []).append((f[0], "column %d (%s): %s" % (j, k, f[1]), j))
             return res
     for cut in case.get("cuts", []):
         with warnings.catch_warnings():
@@ -546,6 +772,9 @@ def check_case(case):
                 ps = pa + pb
                 sums = [_column_dict(ps.column("c%d" % j)) for j in range(len(kinds))]
                 parts = [[_column_dict(pa.column("c%d" % j)), _column_dict(pb.column("c%d" % j))] for j in range(len(kinds))]
+                # the operands are used a second time: adding must not have changed them
+                again = pa + pb
+                sums2 = [_column_dict(again.column("c%d" % j)) for j in range(len(kinds))]
             except Exception as e:
                 res["failure"] = ("add-raised", "adding the profiles of rows[:%d] and rows[%d:] raised %s: %s"
                                   % (cut, cut, type(e).__name__, str(e)[:100]), None)
@@ -556,6 +785,11 @@ def check_case(case):
                 got = None if sums[j].get("absent") else core_of(sums[j])
                 res["failure"] = ("additive", "column %d (%s): profile(rows[:%d]) + profile(rows[%d:]) has count/missing/min/max %r, "
                                   "the profile of the whole column has %r" % (j, k, cut, cut, got, core_of(cols[j])), j)
+                return res
+            if sums2[j].get("absent") or core_of(sums2[j]) != core_of(cols[j]):
+                got = None if sums2[j].get("absent") else core_of(sums2[j])
+                res["failure"] = ("additive", "column %d (%s): the same two profiles of rows[:%d] and rows[%d:] added a second time give "
+                                  "count/missing/min/max %r, the profile of the whole column has %r" % (j, k, cut, cut, got, core_of(cols[j])), j)
                 return res
     return res
 
@@ -579,6 +813,10 @@ def shrink_case(case, what):
                 c2["gen"] = dict(c["gen"], pattern=[[r[j]] for r in c["gen"]["pattern"]])
             else:
                 c2["rows"] = [[r[j]] for r in c["rows"]]
+            if "appends" in c:
+                c2["appends"] = [[[r[j]] for r in chunk] for chunk in c["appends"]]
+            if "other" in c:
+                c2["other"] = [[r[j]] for r in c["other"]]
             if still(c2):
                 c = c2
                 break
@@ -587,6 +825,17 @@ def shrink_case(case, what):
         c2["rows"] = expand(c)
         if still(c2):
             c = c2
+    elif "gen" in c:
+        # a failure found on a generated frame is often not about its size: try a few rows of its pattern
+        pat = c["gen"]["pattern"]
+        for m in sorted({1, 2, 3, len(pat), 2 * len(pat), len(pat) + 1}):
+            if m > 16:
+                continue
+            c2 = {k: v for k, v in c.items() if k not in ("gen", "cuts")}
+            c2["rows"] = [list(pat[i % len(pat)]) for i in range(m)]
+            if still(c2):
+                c = c2
+                break
     if c.get("cuts") and what != "additive" and what != "add-raised":
         c2 = {k: v for k, v in c.items() if k != "cuts"}
         if still(c2):
@@ -597,7 +846,7 @@ def shrink_case(case, what):
             if still(c2):
                 c = c2
                 break
-    for drop in ("lazy", "cells"):
+    for drop in ("lazy", "cells", "other"):
         if drop in c:
             c2 = {k: v for k, v in c.items() if k != drop}
             if still(c2):
@@ -606,6 +855,18 @@ def shrink_case(case, what):
     if c.get("cuts") == []:
         c = {k: v for k, v in c.items() if k != "cuts"}
     return c
+
+
+def _got(res):
+    """The judged column profile of a failing case (jsonable), handed to the known-finding predicates."""
+    f = res["failure"]
+    if f is None or f[2] is None or not res["views"]:
+        return None
+    cols = res["views"][-1][2]
+    d = cols[f[2]] if f[2] < len(cols) else None
+    if not isinstance(d, dict):
+        return None
+    return {k: v for k, v in d.items() if k != "hist"}
 
 
 def evaluate(ctx, cases):
@@ -626,6 +887,11 @@ def evaluate(ctx, cases):
         ctx.hit("rows:%s" % (n if n <= 5 else "6-31" if n < 32 else "32-99" if n < 100 else "100-999" if n < 1000 else ">=1000"))
         ctx.hit("cuts:%d" % min(len(c.get("cuts", [])), 9))
         ctx.hit("frame:lazy" if c.get("lazy") else "frame:eager")
+        if "appends" in c:
+            ctx.hit("sequence:uses-of-one-frame:%d" % min(len(c["appends"]) + 1, 5))
+            ctx.hit("sequence:second-frame-between" if c.get("other") else "sequence:uninterrupted")
+            if any(len(chunk) == 0 for chunk in c["appends"]):
+                ctx.hit("sequence:profiled-twice-unchanged")
         for k, f in zip(kinds, cell_forms(c)):
             if k in TEMPORAL:
                 ctx.hit("cell:%s:%s" % (k, f or ("naive" if k == "TIMESTAMP" else "date")))
@@ -642,34 +908,62 @@ def evaluate(ctx, cases):
                 ctx.hit("shape:" + {None: "constant", 1: "ascending", -1: "descending", 0: "unsorted"}[o])
                 dcount = len(set(json.dumps(v) for v in nn))
                 ctx.hit("distinct:" + ("<32" if dcount < 32 else "=32" if dcount == 32 else ">32"))
+                if n <= 400:
+                    ncol = colliding_in(k, nn)
+                    if ncol:
+                        ctx.hit("hash-collision:%s:%s" % (k, "below-sketch-size" if dcount < 32 else "at-or-above-sketch-size"))
                 if k in NUMERIC:
                     if any(e == 0 for e in ex):
                         ctx.hit("value:zero")
                     if any(e < 0 for e in ex):
                         ctx.hit("value:negative")
+                    if k == "DOUBLE" and any(isinstance(v, float) and v == 0 and str(v).startswith("-") for v in nn):
+                        ctx.hit("value:negative-zero")
         if res["failure"] is not None:
+            # a frame above the batch size that fails the way the open finding K06 describes is still compared
+            # with the model's fold of ColumnProfile.__add__ over the batches, field by field
+            if n > consts()["batch"] and res["failure"][0] in ("mfv", "cardinality", "order", "transitions") and "appends" not in c:
+                for j, k in enumerate(kinds):
+                    vals = [r[j] for r in rows]
+                    if non_finite(k, vals) or "raised" in res["cols"][j] or res["cols"][j].get("absent"):
+                        continue
+                    bl = model_batchedfull_line(k, vals)
+                    if bl is not None:
+                        lines.append(bl)
+                        index.append((ci, "batchedfull", j))
             continue
-        # model lines: one per column, one per cut and column, one per generated (batched) frame
-        for j, k in enumerate(kinds):
-            vals = [r[j] for r in rows]
-            if non_finite(k, vals):
-                ctx.hit("model-skipped:non-finite")
-                continue
-            line, why = model_profile_line(k, vals)
-            if line is None:
-                ctx.hit("model-skipped:hash-unobservable")
-                continue
-            lines.append(line)
-            index.append((ci, "col", j))
-            if n > consts()["batch"] or "gen" in c:
-                lines.append("C15 batched " + wire.line(MKIND[k], None, [model_cell(k, v) for v in vals]))
-                index.append((ci, "batched", j))
+        # model lines: one per judged (frame state, column), one per cut and column, one per generated (batched) frame
+        for vi, (label, vrows, vcols) in enumerate(res["views"]):
+            for j, k in enumerate(kinds):
+                vals = [r[j] for r in vrows]
+                if non_finite(k, vals):
+                    ctx.hit("model-skipped:non-finite")
+                    continue
+                line, why = model_profile_line(k, vals)
+                if line is None:
+                    ctx.hit("model-skipped:hash-unobservable")
+                    continue
+                lines.append(line)
+                index.append((ci, "col", (vi, j)))
+                if len(vals) > consts()["batch"] or "gen" in c:
+                    lines.append("C15 batched " + wire.line(MKIND[k], None, [model_cell(k, v) for v in vals]))
+                    index.append((ci, "batched", j))
+                    bl = model_batchedfull_line(k, vals)
+                    if bl is not None:
+                        lines.append(bl)
+                        index.append((ci, "batchedfull", j))
         for ai, (cut, parts, sums) in enumerate(res["adds"]):
             for j, k in enumerate(kinds):
                 if parts[j][0].get("absent") or parts[j][1].get("absent"):
                     continue
                 lines.append("C15 add " + wire.line(core_of(parts[j][0]), core_of(parts[j][1])))
                 index.append((ci, "add", (ai, j)))
+                va, vb = [r[j] for r in rows[:cut]], [r[j] for r in rows[cut:]]
+                if not non_finite(k, va + vb):
+                    sl = model_sum_line(k, va, vb)
+                    if sl is not None:
+                        lines.append(sl)
+                        index.append((ci, "sum", (ai, j)))
     mouts = ctx.model.batch(lines)
     for (ci, tag, payload), mo in zip(index, mouts):
         c = cases[ci]
@@ -679,23 +973,48 @@ def evaluate(ctx, cases):
         out = wire.dec_all(mo[3:])
         kinds = c["kinds"]
         if tag == "col":
-            j = payload
+            vi, j = payload
+            label, vrows, vcols = res["views"][vi]
             k = kinds[j]
-            vals = [r[j] for r in expand(c)]
+            vals = [r[j] for r in vrows]
             m = model_dict(k, out)
             mf = oracle_column(k, vals, m, model_side=True)
             if mf is not None and model_is_pinned():
                 raise InfraError("the oracle rejects the MODEL's profile of %s column %r: %s" % (k, vals[:50], mf[1]))
-            diff = compare_column(k, res["cols"][j], m, core_only=len(vals) > consts()["batch"])
+            diff = compare_column(k, vcols[j], m, core_only=len(vals) > consts()["batch"])
             if mf is not None and diff is None:
                 diff = "the model assembled from the changed source violates the property (%s) where the implementation does not" % mf[1]
             if diff is not None:
-                small = {"kinds": [k], "rows": [[v] for v in vals]}
-                if cell_forms(c)[j]:
-                    small["cells"] = [cell_forms(c)[j]]
-                if c.get("lazy"):
-                    small["lazy"] = True
-                ctx.disagree(small if len(vals) <= 400 else c, res["cols"][j], _plain(m), what=diff)
+                if "appends" in c:
+                    small = c
+                    diff = label + diff
+                else:
+                    small = {"kinds": [k], "rows": [[v] for v in vals]}
+                    if cell_forms(c)[j]:
+                        small["cells"] = [cell_forms(c)[j]]
+                    if c.get("lazy"):
+                        small["lazy"] = True
+                ctx.disagree(small if len(vals) <= 400 else c, vcols[j], _plain(m), what=diff)
+        elif tag == "sum":
+            ai, j = payload
+            cut, parts, sums = res["adds"][ai]
+            rows = expand(c)
+            diff = compare_sum(kinds[j], sums[j], model_dict(kinds[j], out), [[r[j] for r in rows[:cut]], [r[j] for r in rows[cut:]]])
+            ctx.hit("sum-compared-in-full")
+            if diff is not None:
+                ctx.disagree(c, {k2: v for k2, v in sums[j].items() if k2 != "hist"}, _plain(model_dict(kinds[j], out)),
+                             what="profile(rows[:%d]) + profile(rows[%d:]), column %d: %s" % (cut, cut, j, diff))
+        elif tag == "batchedfull":
+            j = payload
+            if out == [None]:
+                raise InfraError("model has no batches for a non-empty frame: %r" % (c,))
+            vals = [r[j] for r in expand(c)]
+            b = consts()["batch"]
+            diff = compare_sum(kinds[j], res["cols"][j], model_dict(kinds[j], out), [vals[i: i + b] for i in range(0, len(vals), b)])
+            ctx.hit("batched-frame-compared-in-full")
+            if diff is not None:
+                ctx.disagree(c, {k2: v for k2, v in res["cols"][j].items() if k2 != "hist"}, _plain(model_dict(kinds[j], out)),
+                             what="frame of %d rows (batches of %d), column %d: %s" % (len(vals), b, j, diff))
         elif tag == "batched":
             j = payload
             if out[0] != core_of(res["cols"][j]):
@@ -708,19 +1027,30 @@ def evaluate(ctx, cases):
     for c, res in zip(cases, results):
         if res["failure"] is None:
             continue
-        what = res["failure"][0]
-        if what in _REPORTED and not ctx.replaying:
-            # one replay per clause kind and run; known findings are still matched and counted
-            f0 = {"clause": res["failure"][1], "detail": {"what": what, "col": res["failure"][2]}}
-            if not any(k.get("status") == "open" and hcore.match_known(ctx.prop_id, k, c, f0) for k in ctx.known):
-                ctx.hit("violation-dup:" + what)
+        for fi, fail in enumerate([res["failure"]] + res.get("more", [])):
+            what = fail[0]
+            got = _got(dict(res, failure=fail))
+            if fi > 0:
+                # a further clause of a frame above the batch size: reported as it stands (no shrinking)
+                ctx.fail(c, fail[1], impl=None, detail={"what": what, "col": fail[2], "got": got})
                 continue
-        c_min = c if ctx.replaying else shrink_case(c, what)
-        r2 = check_case(c_min)
-        f2 = r2["failure"] or res["failure"]
-        verdict = ctx.fail(c_min, f2[1], impl=r2["cols"] if len(expand(c_min)) <= 50 else None, detail={"what": f2[0], "col": f2[2]})
-        if verdict == "violation":
-            _REPORTED.add(what)
+            if what in _REPORTED and not ctx.replaying:
+                # one replay per clause kind and run; known findings are still matched and counted
+                f0 = {"clause": fail[1], "detail": {"what": what, "col": fail[2], "got": got}}
+                if not any(k.get("status") == "open" and hcore.match_known(ctx.prop_id, k, c, f0) for k in ctx.known):
+                    ctx.hit("violation-dup:" + what)
+                    continue
+            c_min = c if ctx.replaying else shrink_case(c, what)
+            r2 = check_case(c_min)
+            if r2["failure"] is None:
+                r2 = res
+                c_min = c
+            f2 = r2["failure"]
+            last = r2["views"][-1][2] if r2["views"] else r2["cols"]
+            verdict = ctx.fail(c_min, f2[1], impl=last if len(expand(c_min)) <= 50 else None,
+                               detail={"what": f2[0], "col": f2[2], "got": _got(r2)})
+            if verdict == "violation":
+                _REPORTED.add(what)
 
 
 _REPORTED = set()
@@ -809,6 +1139,12 @@ def random_column(rng, kind, n):
     if kind in ("BOOLEAN",):
         dsize = min(dsize, 2)
     dom = domain(rng, kind, min(dsize, max(n, 1)))
+    if n >= 2 and rng.random() < 0.12 and live_groups(kind):
+        # values whose sketch hashes collide (corpus), in place of as many ordinary values
+        groups = rng.sample(live_groups(kind), min(len(live_groups(kind)), rng.choice([1, 1, 2, 4])))
+        inject = [v for g in groups for v in g][: max(2, min(n, len(dom) + 2))]
+        keep = [v for v in dom if sort_key(kind)(v) not in {sort_key(kind)(w) for w in inject}]
+        dom = inject + keep[: max(0, max(len(dom), len(inject)) - len(inject))]
     r = rng.random()
     if r < 0.25 or len(dom) >= n:
         vals = [rng.choice(dom) for _ in range(n)]
@@ -860,6 +1196,98 @@ def random_case(ctx, big=False):
     return c
 
 
+def random_sequence(ctx):
+    """One frame object: profiled, rows appended, profiled again, ...; in half of the cases the profile of a
+    second frame (same kinds) is taken between two uses."""
+    rng = ctx.rng
+    ncols = 1 if rng.random() < 0.6 else rng.randint(2, 3)
+    kinds = [rng.choice(KINDS) for _ in range(ncols)]
+    uses = rng.choice([1, 1, 2, 3])
+    sizes = [rng.choice([1, 1, 2, 3, 8, 30])] + [rng.choice([0, 1, 1, 2, 5, 20]) for _ in range(uses)]
+    total = sum(sizes)
+    cols = [random_column(rng, k, total) for k in kinds]
+    allrows = [[col[i] for col in cols] for i in range(total)]
+    c = {"kinds": kinds, "rows": allrows[: sizes[0]], "appends": []}
+    at = sizes[0]
+    for sz in sizes[1:]:
+        c["appends"].append(allrows[at: at + sz])
+        at += sz
+    if rng.random() < 0.5:
+        m = len(c["rows"]) if rng.random() < 0.5 else rng.randint(1, 6)
+        ocols = [random_column(rng, k, m) for k in kinds]
+        c["other"] = [[col[i] for col in ocols] for i in range(m)]
+    if rng.random() < 0.2:
+        c["lazy"] = True
+    return c
+
+
+def sequence_edge_cases():
+    """use -> mutate -> use again on one object, for every kind; the appended rows change every statistic."""
+    out = []
+    for k in KINDS:
+        a = SMALL[k]
+        out.append({"kinds": [k], "rows": [[a[0]]], "appends": [[[a[1]], [None]]]})
+        out.append({"kinds": [k], "rows": [[None]], "appends": [[[a[0]]], [], [[a[-1]], [a[0]]]]})
+        out.append({"kinds": [k], "rows": [[a[0]], [a[0]]], "appends": [[[a[1]]]], "other": [[a[1]], [None]]})
+        out.append({"kinds": [k], "rows": [[a[1]]], "appends": [[[None]], [[a[0]]]], "lazy": True})
+    # new extremes on both sides, a new most frequent value, order flips, the sketch grows past its size
+    out.append({"kinds": ["INTEGER", "VARCHAR"], "rows": [[3, "c"], [4, None], [5, "e"]], "appends": [[[-7, None], [11, "k"]], [[4, "k"], [4, "k"]]]})
+    out.append({"kinds": ["DOUBLE"], "rows": [[1.5], [2.5]], "appends": [[[0.0]], [[-0.5], [2.5], [2.5]]]})
+    out.append({"kinds": ["TIMESTAMP", "DATE"], "rows": [[5, 1], [None, None]], "appends": [[[-5, 0]], [[1700000000, -3]]]})
+    out.append({"kinds": ["INTEGER"], "rows": [[i] for i in range(30)], "appends": [[[30]], [[31]], [[32], [33]]]})
+    out.append({"kinds": ["VARCHAR"], "rows": [["v%d" % i] for i in range(31)], "appends": [[], [["v31"], ["v0"]]], "other": [["w%d" % i] for i in range(31)]})
+    return out
+
+
+def collision_cases():
+    """Columns holding values whose sketch hashes collide (corpus/C15/collisions.json, re-verified against the
+    implementation): alone, with repeats and nulls, many pairs below the sketch size, exactly at 31 / 32 / 33
+    distinct values, across a cut, arriving by append, and (one frame) above the batch size."""
+    out = []
+    for k in ("VARCHAR", "INTEGER", "DOUBLE", "DECIMAL", "TIMESTAMP", "DATE"):
+        groups = live_groups(k)
+        if not groups:
+            continue
+        for g in groups[:6]:
+            out.append({"kinds": [k], "rows": [[v] for v in g], "cuts": [1]})
+        a = groups[0]
+        filler = [v for v in SMALL[k] if v not in a]
+        out.append({"kinds": [k], "rows": [[a[0]], [a[1]], [a[0]], [None], [a[1]], [filler[0]], [a[0]]], "cuts": [2, 4]})
+        out.append({"kinds": [k], "rows": [[a[0]], [filler[0]]], "appends": [[[a[1]]], [[a[0]], [None]]]})
+        many = [v for g in groups[:12] for v in g]
+        out.append({"kinds": [k], "rows": [[v] for v in many[:24]] + [[many[0]], [None], [many[1]]]})
+        pool = [v for g in groups for v in g]
+        extra = [v for v in domain_plain(k, 40) if v not in pool]
+        for d in (31, 32, 33):
+            vals = (pool[:16] + extra)[:d]
+            out.append({"kinds": [k], "rows": [[v] for v in vals] + [[vals[0]]]})
+    gs = {k: live_groups(k) for k in ("VARCHAR", "INTEGER", "TIMESTAMP")}
+    if all(gs.values()):
+        n = min(len(g) for g in gs.values())
+        rows = []
+        for i in range(min(n, 5)):
+            for t in range(2):
+                rows.append([gs["VARCHAR"][i][t], gs["INTEGER"][i][t], gs["TIMESTAMP"][i][t]])
+        out.append({"kinds": ["VARCHAR", "INTEGER", "TIMESTAMP"], "rows": rows, "cuts": [1, len(rows) - 1]})
+    # above the batch size the sketches of the batches are united as a *set* of hashes: colliding values count
+    # once (part of the open finding K06; its predicate demands exactly that number)
+    if live_groups("VARCHAR"):
+        a = live_groups("VARCHAR")[0]
+        out.append({"kinds": ["VARCHAR"], "gen": {"n": consts()["batch"] + 1, "pattern": [[a[0]], [a[1]], [a[0]]]}})
+    return out
+
+
+def domain_plain(kind, size):
+    """`size` ordinary distinct cells of a kind, deterministic."""
+    if kind == "VARCHAR":
+        return ["w%d" % i for i in range(size)]
+    if kind == "DOUBLE":
+        return [i + 0.25 for i in range(size)]
+    if kind == "DECIMAL":
+        return ["%d.75" % i for i in range(size)]
+    return list(range(1, size + 1))
+
+
 def big_case(ctx, i):
     """A frame larger than the profiler's batch size, described by a repeating pattern."""
     rng = ctx.rng
@@ -893,6 +1321,9 @@ def edge_cases():
     out.append({"kinds": ["INTEGER"], "rows": [[-5], [0], [-3]], "cuts": [1, 2]})
     out.append({"kinds": ["DOUBLE"], "rows": [[-0.5], [1.5], [-1.75], [0.0]], "cuts": [1, 2, 3]})
     out.append({"kinds": ["DECIMAL"], "rows": [["-0.50"], ["1.50"], [None], ["1.5"]], "cuts": [1, 2, 3]})
+    # negative zero is the number 0 (one value, no transition, extremes 0)
+    out.append({"kinds": ["DOUBLE"], "rows": [[0.0], [-0.0], [1.5]], "cuts": [1, 2]})
+    out.append({"kinds": ["DOUBLE"], "rows": [[-0.0], [None], [0.0], [-0.5]], "cuts": [1, 2, 3]})
     # all-null columns of every kind, nulls first / last
     for k in KINDS:
         a = SMALL[k][0]
@@ -919,6 +1350,9 @@ def edge_cases():
     pat = [[5], [5], [3], [0], [0], [-2], [7]]
     pat[b % 7] = [None]
     out.append({"kinds": ["INTEGER"], "gen": {"n": b + 1, "pattern": pat}})
+    # ... and frames whose FIRST batch is all null: the sum must keep the sketch and the listed values of the other side
+    out.append({"kinds": ["INTEGER", "VARCHAR"], "gen": {"n": b + 2, "nulls_first": b, "pattern": [[3, "x"], [3, "y"]]}})
+    out.append({"kinds": ["TIMESTAMP"], "gen": {"n": 2 * b + 1, "nulls_first": b, "pattern": [[7]]}, "lazy": True})
     # 31 / 32 / 33 distinct values, with a tie at the cut-off of the most-frequent list
     for d in (31, 32, 33, 40):
         out.append({"kinds": ["INTEGER"], "rows": [[i] for i in range(d)]})
@@ -963,6 +1397,11 @@ def run(ctx):
         "text values are profiled by their first 64 characters (SIXTY_FOUR_BYTES); instants are whole seconds",
     ])
     evaluate(ctx, edge_cases())
+    evaluate(ctx, sequence_edge_cases())
+    cc = collision_cases()
+    evaluate(ctx, cc)
+    ctx.note("hash_collisions", {k: "%d of %d stored groups still collide under the implementation's hash" % (len(live_groups(k)), len(load_collisions().get(k, [])))
+                                 for k in ("VARCHAR", "INTEGER", "DOUBLE", "DECIMAL", "TIMESTAMP", "DATE")})
     nmax = ctx.scale(3, 5)
     batch = []
     total = 0
@@ -983,7 +1422,7 @@ def run(ctx):
     done = 0
     while done < n_random and ctx.time_left() > ctx.scale(12, 60):
         k = min(500, n_random - done)
-        evaluate(ctx, [random_case(ctx) for _ in range(k)])
+        evaluate(ctx, [random_sequence(ctx) if i % 6 == 5 else random_case(ctx) for i in range(k)])
         done += k
     ctx.note("random_cases", done)
 
@@ -992,7 +1431,7 @@ def intensify(ctx):
     done = 0
     n = ctx.scale(4000, 40000)
     while done < n and ctx.time_left() > 5:
-        evaluate(ctx, [random_case(ctx) for _ in range(500)])
+        evaluate(ctx, [random_sequence(ctx) if i % 6 == 5 else random_case(ctx) for i in range(500)])
         done += 500
 
 
@@ -1001,61 +1440,184 @@ def replay(ctx, case):
 
 
 # --------------------------------------------------------------------------- known findings
+#
+# Every predicate matches (1) the input class of its finding and (2) a failure that the known defect
+# *explains*: the reported profile is recomputed under the defect's own semantics (values rounded through
+# float(), -2**63 read as a null, labels cut to six decimals, numpy.histogram refusing the data, batch
+# profiles summed the way ColumnProfile.__add__ sums them) and must be exactly that.  Anything else on the
+# same inputs is reported as a violation.  A failure of a sequence case is never a known finding.
 
 
-def _col(case, failure):
-    j = (failure.get("detail") or {}).get("col")
+def _column(case, failure):
+    """(kind, column cells with nulls, clause kind, judged profile) of the failing column, or Nones."""
+    det = failure.get("detail") or {}
+    j = det.get("col")
+    if "appends" in case:
+        return None, None, None, None
     if j is None:
         j = 0 if len(case["kinds"]) == 1 else None
     if j is None:
-        return None, None, None
+        return None, None, None, None
     rows = expand(case)
-    return case["kinds"][j], [r[j] for r in rows if r[j] is not None], (failure.get("detail") or {}).get("what")
+    return case["kinds"][j], [r[j] for r in rows], det.get("what"), det.get("got")
+
+
+def _explained(kind, vals, got):
+    """The judged profile is the exact profile of `vals` (what the defect turns the column into)."""
+    if not isinstance(got, dict) or "raised" in got or got.get("absent"):
+        return False
+    try:
+        return oracle_column(kind, vals, got, model_side=True) is None
+    except Exception:
+        return False
 
 
 def k_int_beyond_2_53(case, failure):
-    kind, vals, what = _col(case, failure)
-    if kind != "INTEGER" or not any(abs(v) > TWO53 for v in vals):
+    kind, vals, what, got = _column(case, failure)
+    if kind != "INTEGER" or not any(v is not None and abs(v) > TWO53 for v in vals):
         return False
-    return what in ("extremes", "mfv", "cardinality", "order", "transitions", "histogram")
+    if what not in ("extremes", "mfv", "cardinality", "order", "transitions"):
+        return False
+    if len(vals) > consts()["batch"]:
+        return False
+    # the profile is that of the column after float(): int(float(v)) for every cell
+    return _explained("INTEGER", [None if v is None else int(float(v)) for v in vals], got)
+
+
+def _histogram_refuses(floats):
+    import numpy
+
+    if not floats:
+        return False
+    try:
+        with warnings.catch_warnings():
+            warnings.simplefilter("ignore")
+            numpy.histogram(floats, bins=50)
+        return False
+    except ValueError as e:
+        return "Too many bins" in str(e)
 
 
 def k_histogram_bins(case, failure):
     what = (failure.get("detail") or {}).get("what")
-    if what not in ("raised", "add-raised") or "Too many bins" not in failure["clause"]:
+    if what not in ("raised", "add-raised") or "Too many bins" not in failure["clause"] or "appends" in case:
         return False
     rows = expand(case)
+    b = consts()["batch"]
+    pieces = [rows[i: i + b] for i in range(0, len(rows), b)]
+    if what == "add-raised":
+        pieces = [p for cut in case.get("cuts", []) for p in (rows[:cut], rows[cut:])]
     for j, k in enumerate(case["kinds"]):
-        if k in NUMERIC and any(r[j] is not None and not non_finite(k, [r[j]]) and abs(exact(k, r[j])) > BINS_SAFE for r in rows):
-            return True
+        if k not in NUMERIC:
+            continue
+        for piece in pieces:
+            nn = [r[j] for r in piece if r[j] is not None]
+            if non_finite(k, nn) or not any(abs(exact(k, v)) > BINS_SAFE for v in nn):
+                continue
+            # numpy.histogram itself cannot cut this data into 50 bins
+            if _histogram_refuses([float(exact(k, v)) for v in nn if exact(k, v) != INT64_MIN]):
+                return True
     return False
 
 
+def _summed_the_way_add_sums(kind, vals):
+    """What ColumnProfile.__add__ makes of the batch profiles of a frame above the batch size (finding K06):
+    listed values = those listed in every batch that holds values, counts summed; transitions = the sum of
+    the batches' transitions plus one per addition; order = `0 if equal else left`; the sketch is the set of
+    the batches' hashes, so values whose hashes collide count once."""
+    b = consts()["batch"]
+    from collections import Counter
+
+    mfv = None
+    order = None
+    trans = 0
+    first = True
+    for i in range(0, len(vals), b):
+        ex = [exact(kind, v) for v in vals[i: i + b] if v is not None]
+        o, t = expected_order(ex) if ex else (None, 0)
+        top = dict(Counter(ex).most_common(consts()["mfv"]))
+        if first:
+            order, trans, mfv, first = o, t, (top if ex else None), False
+            continue
+        trans += t + 1
+        order = 0 if order == o else order
+        if ex:
+            mfv = top if mfv is None else {v: c + top[v] for v, c in mfv.items() if v in top}
+    nn = [v for v in vals if v is not None]
+    hashes = set()
+    seen = set()
+    for v in nn:
+        key = v if kind == "VARCHAR" else exact(kind, v)
+        if key not in seen:
+            seen.add(key)
+            hashes.add(impl_hash(kind, v))
+    return {"mfv": mfv or {}, "order": order, "transitions": trans, "card": len(hashes)}
+
+
 def k_batched_frequencies(case, failure):
-    what = (failure.get("detail") or {}).get("what")
-    n = case["gen"]["n"] if "gen" in case else len(case["rows"])
-    return n > consts()["batch"] and what in ("mfv", "cardinality", "order", "transitions")
+    kind, vals, what, got = _column(case, failure)
+    if kind is None or len(vals) <= consts()["batch"] or what not in ("mfv", "cardinality", "order", "transitions"):
+        return False
+    if not isinstance(got, dict) or "raised" in got or got.get("absent"):
+        return False
+    if non_finite(kind, [v for v in vals if v is not None]):
+        return False
+    want = _summed_the_way_add_sums(kind, vals)
+    if what == "order":
+        return kind in NUMERIC + ("VARCHAR",) and got.get("order") == want["order"]
+    if what == "transitions":
+        return kind in NUMERIC + ("VARCHAR",) and got.get("transitions") == want["transitions"]
+    if what == "cardinality":
+        return got.get("card") == want["card"]
+    try:
+        listed = {parse_label(kind, l): c for l, c in got.get("mfv", [])}
+    except (ValueError, ArithmeticError):
+        return False
+    return len(listed) == len(got.get("mfv", [])) and listed == want["mfv"]
 
 
 def k_int64_min_sentinel(case, failure):
-    kind, vals, what = _col(case, failure)
-    return kind == "INTEGER" and INT64_MIN in vals and what == "missing"
+    kind, vals, what, got = _column(case, failure)
+    if kind != "INTEGER" or INT64_MIN not in vals or what != "missing" or len(vals) > consts()["batch"]:
+        return False
+    # the profile is that of the column with every -2**63 read as a null
+    return _explained("INTEGER", [None if v == INT64_MIN else v for v in vals], got)
 
 
 def k_non_finite(case, failure):
-    kind, vals, what = _col(case, failure)
-    if kind != "DOUBLE" or what != "raised":
+    what = (failure.get("detail") or {}).get("what")
+    if what != "raised" or "appends" in case:
         return False
-    if not any(isinstance(v, float) and (v != v or v in (float("inf"), float("-inf"))) for v in vals):
+    rows = expand(case)
+    bad = any(k == "DOUBLE" and non_finite(k, [r[j] for r in rows if r[j] is not None]) for j, k in enumerate(case["kinds"]))
+    if not bad:
         return False
-    return "cannot convert float" in failure["clause"] or "OverflowError" in failure["clause"]
+    return "ValueError: cannot convert float" in failure["clause"] or "OverflowError: cannot convert float" in failure["clause"]
 
 
 def k_six_decimals(case, failure):
-    kind, vals, what = _col(case, failure)
-    if kind not in ("DOUBLE", "DECIMAL") or what != "mfv":
+    kind, vals, what, got = _column(case, failure)
+    if kind not in ("DOUBLE", "DECIMAL") or what != "mfv" or len(vals) > consts()["batch"]:
         return False
-    return any((exact(kind, v) * 10**6).denominator != 1 for v in vals)
+    nn = [v for v in vals if v is not None]
+    if non_finite(kind, nn) or not any((exact(kind, v) * 10**6).denominator != 1 for v in nn):
+        return False
+    if not isinstance(got, dict) or "raised" in got or got.get("absent"):
+        return False
+    # the list is the exact most-frequent list of the column, every value printed with six decimals
+    from collections import Counter
+
+    def label(x):
+        return ("%f" % float(x)).rstrip("0").strip(".")
+
+    counts = Counter(exact(kind, v) for v in nn)
+    have = Counter((label(x), c) for x, c in counts.items())
+    listed = Counter((str(l), c) for l, c in got.get("mfv", []))
+    if sum(listed.values()) != min(consts()["mfv"], len(counts)) or any(listed[e] > have[e] for e in listed):
+        return False
+    low = min(c for _, c in listed) if listed else 0
+    unlisted = have - listed
+    return all(c <= low for (_, c) in unlisted)
 
 
 KNOWN_PREDICATES = {
